@@ -5,6 +5,7 @@ import (
 	"fmt"
 	"os"
 	"regexp"
+	"runtime/pprof"
 	"sort"
 	"time"
 
@@ -73,8 +74,14 @@ func cmdRun(args []string) {
 	tmo := fs.Int("timeout", 60000, "solver timeout ms")
 	prefix := fs.String("prefix", "", "run only this decision prefix")
 	smtlog := fs.String("smtlog", "", "write worker 0's SMT transcript here")
+	cpuprof := fs.String("cpuprofile", "", "")
 	fs.Parse(args)
 	p := loadProg(*repo, *harness)
+	if *cpuprof != "" {
+		f, _ := os.Create(*cpuprof)
+		pprof.StartCPUProfile(f)
+		defer pprof.StopCPUProfile()
+	}
 	re := regexp.MustCompile(*pat)
 	hs := p.Harnesses()
 	var names []string
@@ -118,6 +125,7 @@ func cmdRun(args []string) {
 			}
 		}
 	}
+	pprof.StopCPUProfile()
 	os.Exit(exit)
 }
 
